@@ -311,6 +311,12 @@ func (e *NameExpr) GetPos() int {
 }
 
 func (e *NameExpr) String() string {
+	// A name that does not read back as itself (upper case, blanks, a
+	// reserved word ...) was written between back quotes: print it that way
+	toks := NewLexer(e.Data).Split()
+	if len(toks) != 1 || toks[0].Tp != NAME || toks[0].Data != e.Data {
+		return fmt.Sprintf("`%s`", e.Data)
+	}
 	return fmt.Sprintf("%s", e.Data)
 }
 
